@@ -1056,10 +1056,12 @@ theorem tblInv_updateTable_go : ∀ (chs : List IndexChange) (t : Table), TblInv
 /-- new attribute definitions that leave the definitions of every index key attribute as they are -/
 def AttrsKeep (t : Table) (attrs' : List (Bytes × Bytes)) : Prop :=
   ∀ n ix, alookup n t.indexes = some ix →
-    alookup ix.schema.hash attrs' = alookup ix.schema.hash t.attrs ∧ alookup ix.schema.range attrs' = alookup ix.schema.range t.attrs
+    (alookup ix.schema.hash attrs').getD [] = (alookup ix.schema.hash t.attrs).getD [] ∧
+    (alookup ix.schema.range attrs').getD [] = (alookup ix.schema.range t.attrs).getD []
 
 theorem getKey_attrs_congr (ks : KeySchema) (attrs attrs' : List (Bytes × Bytes)) (item : Item)
-    (hh : alookup ks.hash attrs' = alookup ks.hash attrs) (hr : alookup ks.range attrs' = alookup ks.range attrs) :
+    (hh : (alookup ks.hash attrs').getD [] = (alookup ks.hash attrs).getD [])
+    (hr : (alookup ks.range attrs').getD [] = (alookup ks.range attrs).getD []) :
     Key.getKey ks attrs' item = Key.getKey ks attrs item := by
   unfold Key.getKey Key.keyValue Key.keyAttrValue Key.itemValue
   rw [hh, hr]
@@ -1336,6 +1338,91 @@ theorem run_inv3 : ∀ (ops : List Op) (c : Client), ClientInv3 c → SafeRun c 
 
 theorem reachable_inv3 (sdk : Sdk) (ops : List Op) (hs : SafeRun { sdk := sdk } ops) : ClientInv3 (run { sdk := sdk } ops).1 :=
   run_inv3 ops _ (inv3_new sdk) hs
+
+/-! ### every UpdateTable is safe: the library rejects the definitions that would re-type a key attribute in use -/
+
+theorem foldl_ainsert_getD (k : Bytes) : ∀ (defs : List (Bytes × Bytes)) (base : List (Bytes × Bytes)),
+    (∀ p ∈ defs, p.1 = k → (alookup k base).getD [] = p.2) →
+    (alookup k (defs.foldl (fun acc (p : Bytes × Bytes) => ainsert p.1 p.2 acc) base)).getD [] = (alookup k base).getD []
+  | [], _, _ => rfl
+  | (n, ty) :: rest, base, h => by
+    simp only [List.foldl_cons]
+    by_cases hn : n = k
+    · subst hn
+      have h1 : (alookup n base).getD [] = ty := h (n, ty) (by simp) rfl
+      have h2 : alookup n (ainsert n ty base) = some ty := alookup_ainsert_self _ _ _
+      rw [foldl_ainsert_getD n rest (ainsert n ty base) (by
+        intro p hp hpk
+        rw [h2]; simp only [Option.getD_some]
+        rw [← h1]; exact h p (List.mem_cons_of_mem _ hp) hpk)]
+      rw [h2, h1]; rfl
+    · have h2 : alookup k (ainsert n ty base) = alookup k base := alookup_ainsert_ne _ _ (fun e => hn e.symm)
+      rw [foldl_ainsert_getD k rest (ainsert n ty base) (by
+        intro p hp hpk; rw [h2]; exact h p (List.mem_cons_of_mem _ hp) hpk)]
+      rw [h2]
+
+theorem index_attrs_inUse {t : Table} {n : Bytes} {ix : Index} (h : alookup n t.indexes = some ix) :
+    ix.schema.hash ∈ keyAttrsInUse t ∧ ix.schema.range ∈ keyAttrsInUse t := by
+  have hm := mem_of_alookup h
+  unfold keyAttrsInUse
+  constructor
+  · apply List.mem_append_right
+    exact List.mem_flatMap.2 ⟨(n, ix), hm, by simp⟩
+  · apply List.mem_append_right
+    exact List.mem_flatMap.2 ⟨(n, ix), hm, by simp⟩
+
+theorem attrsKeep_of_not_redefines (t : Table) (defs : List (Bytes × Bytes)) (h : redefinesKeyAttr t defs = false) :
+    AttrsKeep t (defs.foldl (fun acc (n, ty) => ainsert n ty acc) t.attrs) := by
+  have hdef : ∀ p ∈ defs, p.1 ∈ keyAttrsInUse t → (alookup p.1 t.attrs).getD [] = p.2 := by
+    intro p hp hin
+    unfold redefinesKeyAttr at h
+    have := List.any_eq_false.1 h p hp
+    obtain ⟨n, ty⟩ := p
+    simp only at this hin ⊢
+    have h' : n ∈ keyAttrsInUse t → (alookup n t.attrs).getD [] = ty := by simpa using this
+    exact h' hin
+  intro n ix hl
+  obtain ⟨hh, hr⟩ := index_attrs_inUse hl
+  constructor
+  · exact foldl_ainsert_getD _ defs t.attrs (fun p hp hk => by rw [← hk]; exact hdef p hp (by rw [hk]; exact hh))
+  · exact foldl_ainsert_getD _ defs t.attrs (fun p hp hk => by rw [← hk]; exact hdef p hp (by rw [hk]; exact hr))
+
+theorem attrsKeep_refl (t : Table) : AttrsKeep t t.attrs := fun _ _ _ => ⟨rfl, rfl⟩
+
+/-- **every operation is safe in every state** -/
+theorem safeOp_always (c : Client) (op : Op) : SafeOp c op := by
+  cases op with
+  | updateTable name chs =>
+    simp only [SafeOp]
+    intro t t' ht ht'
+    unfold updateTable at ht'
+    simp only [ht] at ht'
+    split at ht'
+    · simp only at ht'
+      rw [ht] at ht'; cases ht'
+      exact attrsKeep_refl t
+    · rename_i hr
+      have hkeep := attrsKeep_of_not_redefines t _ (by simpa using hr)
+      generalize hA : List.foldl _ t.attrs _ = A at ht' hkeep
+      have hattrs := updateTable_go_attrs chs { t with attrs := A }
+      generalize updateTable.go { t with attrs := A } chs = res at ht' hattrs
+      obtain ⟨t2, e⟩ := res
+      simp only at ht' hattrs
+      have : t' = t2 := by
+        cases e <;> (simp only [alookup_ainsert_self, Option.some.injEq] at ht'; exact ht'.symm)
+      rw [this, hattrs]; exact hkeep
+  | _ => trivial
+
+theorem safeRun_always : ∀ (ops : List Op) (c : Client), SafeRun c ops
+  | [], _ => trivial
+  | op :: rest, c => ⟨safeOp_always c op, safeRun_always rest _⟩
+
+/-- **C03 for every history, unconditionally**: in every state reachable by any sequence of operations of the client
+    — writes, deletes, clears, batches, paginated reads with deletions, table creation and deletion, index creation
+    (with backfill) and removal, any UpdateTable — every secondary index is internally consistent and holds, for every
+    primary key, exactly the index key of the stored item (nothing when the item lacks it) -/
+theorem reachable_inv3_all (sdk : Sdk) (ops : List Op) : ClientInv3 (run { sdk := sdk } ops).1 :=
+  reachable_inv3 sdk ops (safeRun_always ops _)
 
 /-- histories without UpdateTable are always safe -/
 theorem safeRun_of_no_updateTable : ∀ (ops : List Op) (c : Client), (∀ op ∈ ops, ∀ n chs, op ≠ .updateTable n chs) → SafeRun c ops := by
